@@ -36,7 +36,7 @@ def run_cpp(exe, text, args=('run',), timeout=3600, env_extra=None):
 
 
 def run_lean(drv, text, timeout=3600):
-    p = subprocess.run([drv, 'run'], input=text, stdout=subprocess.PIPE, stderr=subprocess.PIPE, text=True, timeout=timeout)
+    p = subprocess.run([drv, 'run'], input=text, stdout=subprocess.PIPE, stderr=subprocess.PIPE, text=True, errors='replace', timeout=timeout)
     M, S = [], []
     for l in p.stdout.splitlines():
         if l.startswith('M '):
@@ -50,7 +50,7 @@ def run_lean(drv, text, timeout=3600):
 
 
 def lean_gen(drv, args, timeout=3600):
-    p = subprocess.run([drv, 'gen'] + [str(a) for a in args], stdout=subprocess.PIPE, stderr=subprocess.PIPE, text=True, timeout=timeout)
+    p = subprocess.run([drv, 'gen'] + [str(a) for a in args], stdout=subprocess.PIPE, stderr=subprocess.PIPE, text=True, errors='replace', timeout=timeout)
     if p.returncode != 0:
         raise RuntimeError('leandrv gen failed: ' + p.stderr[-2000:])
     return p.stdout
